@@ -11,6 +11,7 @@
     the note's value, account and scope of key [k], nullifier [nf_of p k n (base + i)], change flag
     "account of [k] is among [accts]", and [o]'s ephemeral key and commitment. *)
 From V.Lib Require Import Base.
+From V.Gen Require Import C05Consts.
 From V.C05 Require Import Model Spec Corr Wf Proofs Eqb Bridge Batched Batch.
 From Coq Require Import Permutation.
 Local Open Scope N_scope.
@@ -265,12 +266,28 @@ Proof. exact batch_spend_reported. Qed.
 Theorem C05_nfset_eqb_sound : forall a b, nfset_eqb a b = true <-> a = b.
 Proof. exact nfset_eqb_spec. Qed.
 
+(** ZIP 212: which Sapling plaintext versions the block at height h accepts (the policy is a
+    function of THAT block's height, Canopy's activation height and the regenerated
+    ZIP212_GRACE_PERIOD), and trial decryption of the ground-truth oracle obeys it. *)
+Theorem C05_zip212_policy : forall c h,
+  zip212_enforcement c h
+  = match a_canopy c with
+    | None => ZOff
+    | Some a => if h <? a then ZOff else if h <? N.min (a + Z.to_N C05Consts.ZIP212_GRACE_PERIOD) (U32 - 1) then ZGrace else ZOn
+    end.
+Proof. exact zip212_policy. Qed.
+Theorem C05_dec_truth_respects_zip212 : forall c h k o n,
+  dec_truth c h Sapling k o = Some n ->
+  exists t, o_truth o = Some t /\ lead_accepted (zip212_enforcement c h) (t_lead t) = true
+            /\ t_acct t = k_acct k /\ t_scope t = k_scope k.
+Proof. exact dec_truth_zip212. Qed.
+
 (** Non-vacuity: a connected block with one Sapling output for key (account 7, external) is
     accepted, and the note is reported at position 10 = prior size with value 5. *)
 Example C05_nonvacuous :
   match scan_block_truth cfg1 (Some (Pm 9 2 (Some 10) (Some 0) (Some 0))) [K 7 0; K 7 1] empty_nfs
           (Blk 10 (F 32 true 1) (F 32 true 2) 0 None
-               [Tx 0 (F 32 true 3) [] [O (F 0 false 0) (F 32 true 4) (F 32 true 5) 52 (Some (T 7 0 5 10 99))] [] []]
+               [Tx 0 (F 32 true 3) [] [O (F 0 false 0) (F 32 true 4) (F 32 true 5) 52 (Some (T 7 0 5 10 99 2))] [] []]
                (Some (11, 0, 0))) with
   | Ok r => match s_txs r with
             | [wt] => match wt_so wt with
